@@ -23,7 +23,8 @@ LEVEL = "exploration"
 DESIGN_REF = "DESIGN.md §4 C15"
 RULE = (
     "cells = (handler kind, event class, src path, dest path, include list, exclude list, case_sensitive, "
-    "ignore_directories, str|bytes); exhaustive product over a small alphabet of paths and patterns (incl. None, "
+    "ignore_directories, str|bytes), plus SEQUENCES of 2-6 events given to ONE handler instance (same paths under other "
+    "flavours / classes; every dispatch judged on its own); exhaustive product over a small alphabet of paths and patterns (incl. None, "
     "empty and overlapping lists) + Hypothesis cells with longer paths/patterns; plus filter_paths / match_any_paths "
     "on path lists.  non-trivial = a moved event whose two paths fall on different sides of the rule, or a cell where "
     "an include and an exclude pattern both match, or a case-folding-dependent match, or an ignored directory event; "
@@ -286,9 +287,59 @@ def check_filter(paths, inc, exc, cs):
     return both or (0 < len(exp) < len(paths)), ["filter"] + (["include-and-exclude-match"] if both else [])
 
 
+def check_sequence(hkind, inc, exc, cs, ign, events, as_bytes):
+    """ONE handler instance receives the events one after the other; every dispatch is judged on its own (a handler
+    must not carry anything over from one event to the next)."""
+    from watchdog.events import FileSystemEventHandler, PatternMatchingEventHandler, RegexMatchingEventHandler
+
+    by_name = {c.__name__: c for c in event_classes()}
+    if hkind == "pattern":
+        h, calls = recorder(PatternMatchingEventHandler, patterns=inc, ignore_patterns=exc, ignore_directories=ign, case_sensitive=cs)
+    elif hkind == "regex":
+        h, calls = recorder(RegexMatchingEventHandler, regexes=inc, ignore_regexes=exc, ignore_directories=ign, case_sensitive=cs)
+    else:
+        h, calls = recorder(FileSystemEventHandler)
+    flips = 0
+    prev = None
+    for i, (cname, src, dest) in enumerate(events):
+        cls = by_name[cname]
+        e = mk_event(cls, src, dest, as_bytes)
+        paths = [p for p in ((dest if "Moved" in cname else ""), src) if p]
+        if hkind == "base":
+            exp_dispatch = True
+        elif ign and cls.is_directory:
+            exp_dispatch = False
+        elif hkind == "pattern":
+            verdicts = []
+            for p in paths:
+                r = ref_path_ok(p, inc, exc, cs)
+                if r == "conflict" or r[0] == "soft-conflict":
+                    return False, ["sequence", "conflict-skipped"]
+                verdicts.append(r[0])
+            exp_dispatch = any(verdicts)
+        else:
+            exp_dispatch = ref_regex_dispatch(paths, inc, exc, cs)[0]
+        del calls[:]
+        h.dispatch(e)
+        exp = ["on_any_event", f"on_{cls.event_type}"] if exp_dispatch else []
+        if calls != exp:
+            raise Violation(
+                f"{hkind} handler (include={inc}, exclude={exc}, ignore_directories={ign}, case_sensitive={cs}): event #{i} {e!r} of the sequence "
+                f"{events} gave callbacks {calls}, expected {exp} (the same handler instance had received the earlier events)",
+                "sequence-dispatch",
+            )
+        if prev is not None and prev[0] == (src, dest) and prev[1] != exp_dispatch:
+            flips += 1
+        prev = ((src, dest), exp_dispatch)
+    return flips > 0, ["sequence", hkind] + (["same-paths-different-verdict"] if flips else [])
+
+
 def run_cell(cell):
     kind = cell[0]
     by_name = {c.__name__: c for c in event_classes()}
+    if kind == "sequence":
+        _, hkind, inc, exc, cs, ign, events, as_bytes = cell
+        return check_sequence(hkind, inc, exc, cs, ign, [tuple(e) for e in events], as_bytes)
     if kind == "base":
         _, cname, src, dest, as_bytes = cell
         check_base(by_name[cname], src, dest, as_bytes)
@@ -338,6 +389,14 @@ def exhaustive_cells(tier):
         for ps in itertools.product(paths[:5], repeat=n):
             for inc, exc, cs in itertools.product(pats, pats, (True, False)):
                 yield ("filter", list(ps), inc, exc, cs)
+    # one handler instance, every ordered pair / triple of a small event set (same paths with other flavours and classes)
+    evs = [("FileCreatedEvent", "a", ""), ("DirCreatedEvent", "a", ""), ("FileModifiedEvent", "a", ""), ("DirModifiedEvent", "a", ""),
+           ("FileMovedEvent", "a", "x.py"), ("DirMovedEvent", "a", "x.py"), ("FileCreatedEvent", "x.py", ""), ("DirDeletedEvent", "x.py", "")]
+    confs = [("pattern", None, None), ("pattern", ["a"], None), ("pattern", ["*.py"], ["a"]), ("regex", None, None), ("regex", [r".*\.py$"], None), ("regex", None, [r"a$"]), ("base", None, None)]
+    for hkind, inc, exc in confs:
+        for ign in (True, False):
+            for seq in itertools.chain(itertools.product(evs, repeat=2), itertools.product(evs[:5], repeat=3) if tier != "quick" else ()):
+                yield ("sequence", hkind, inc, exc, True, ign, [list(e) for e in seq], False)
 
 
 COMP = st.sampled_from(["a", "b", "A", "B", "ab", "Ab", "x.py", "X.PY", "a.b", ".", "d", "é", "a b"])
@@ -369,8 +428,26 @@ PATLIST = st.one_of(st.none(), st.lists(hyp_pattern(), max_size=3))
 
 @st.composite
 def hyp_cells(draw):
-    kind = draw(st.sampled_from(["pattern", "pattern", "regex", "filter"]))
+    kind = draw(st.sampled_from(["pattern", "pattern", "regex", "filter", "sequence"]))
     cs = draw(st.booleans())
+    if kind == "sequence":
+        hkind = draw(st.sampled_from(["pattern", "pattern", "regex", "base"]))
+        names = [c.__name__ for c in event_classes()]
+        pool = draw(st.lists(hyp_path(), min_size=1, max_size=2))
+        events = []
+        for _ in range(draw(st.integers(2, 6))):
+            cname = draw(st.sampled_from(names))
+            src = draw(st.sampled_from(pool))
+            dest = draw(st.sampled_from(pool)) if "Moved" in cname else ""
+            events.append([cname, src, dest])
+        if hkind == "pattern":
+            inc, exc = draw(PATLIST), draw(PATLIST)
+        elif hkind == "regex":
+            rx = st.sampled_from([r".*", r"a", r".*\.py$", r".*/b", r"[ab]+$", r"A.*"])
+            inc, exc = draw(st.one_of(st.none(), st.lists(rx, max_size=2))), draw(st.one_of(st.none(), st.lists(rx, max_size=2)))
+        else:
+            inc = exc = None
+        return ("sequence", hkind, inc, exc, cs, draw(st.booleans()), events, draw(st.booleans()))
     if kind == "filter":
         return ("filter", draw(st.lists(hyp_path(), max_size=4)), draw(PATLIST), draw(PATLIST), cs)
     names = [c.__name__ for c in event_classes()]
